@@ -56,6 +56,16 @@ CHECKS = {
    note="Known findings C08-F1 (second request to another slave while locked) and C08-F2 (W before AW) are excluded by "
         "region and replayed canonically. AXI4-full twins are covered through C09/C10/C11 families only.",
    tech="deterministic simulation, seeded five-channel schedule search, same-cycle handshake correlation + ordering history"),
+ "C10": dict(cat="fault_enumeration", ref="DESIGN.md 5.C10",
+   text="Real AXIBurst2Beat: thorough enumerates every legal burst of a boundary-biased grid (23 address offsets x 22 lengths x "
+        "4 sizes x 3 types) under four literal stall patterns, quick a fixed 1/10 stride, plus seeded bursts with reduced "
+        "capability sets and idle garbage; beat addresses at transfer-size granularity must equal the AMBA equations with "
+        "len+1 beats, first/last, id, request consumed with the last beat. Real AXIUp/Down/Converter (ratios 2/4/8) between "
+        "an AXI burst master and a reference AXI memory slave: byte memory, all R beats with last on the final one, legal "
+        "bursts on the narrow side, stable channels.",
+   note="Converters are driven with what they support (full-width INCR, see assumptions in the evidence). The reference "
+        "address expansion is harness code written from the AMBA specification.",
+   tech="deterministic simulation, enumerated bursts x stall schedules, AMBA reference expansion, byte-memory oracle"),
  "C11": dict(cat="fault_enumeration", ref="DESIGN.md 5.C11",
    text="Fault-centric: real wishbone.Timeout / InterconnectShared(timeout) and AXILiteTimeout / AXILiteInterconnectShared("
         "timeout) with timeouts 1..16; a slave goes silent at a literal cycle (sweep families enumerate EVERY cycle of a short "
